@@ -61,7 +61,9 @@ MCSameChain == {"none", "def", "override"}
 MCExtraChain == {{}, {"pl"}, {"tp"}, {"pl", "tp"}, {"plo"}, {"plo", "tp"}}
 MCLevelsSmall == [l \in 0..2 |-> CASE l = 0 -> {"absent", "def", "star"}
                                    [] l = 1 -> {"absent", "def", "override", "imp"}
-                                   [] l = 2 -> {"absent", "irrelevant", "def", "override"}]
+                                   \* star / imp at the innermost level: with the conftest itself as the using file the
+                                   \* requested name reaches it only through ITS OWN import
+                                   [] l = 2 -> {"absent", "irrelevant", "def", "override", "star", "imp"}]
 MCSameKinds == {"none", "def", "def2", "override"}
 MCExtraAll  == SUBSET {"cs", "o", "m", "pl", "tp"}
 MCExtraFew  == {{}, {"cs"}, {"pl", "tp"}}
